@@ -23,6 +23,9 @@ type generatedMethod struct {
 	OriginPath []method.IndexID
 	Jen        jen.Code
 
+	// AvailableContext is the context that was available when a generated method was created.
+	AvailableContext map[string]*xtype.Type
+
 	IndexID method.IndexID
 }
 
@@ -57,7 +60,11 @@ func (g *generator) buildDirtyMethods() error {
 			continue
 		}
 		genMethod.Dirty = false
-		err := g.buildMethod(genMethod, genMethod.Context)
+		available := genMethod.Context
+		if genMethod.AvailableContext != nil {
+			available = genMethod.AvailableContext
+		}
+		err := g.buildMethod(genMethod, available)
 		if err != nil {
 			err = err.Lift(&builder.Path{
 				SourceID:   "source",
@@ -337,6 +344,7 @@ func (g *generator) ReturnError(ctx *builder.MethodContext, errPath builder.Erro
 			if !check.ReturnError {
 				check.ReturnError = true
 				check.Dirty = true
+				g.markCallersDirty(path, check)
 			}
 		}
 	}
@@ -346,6 +354,26 @@ func (g *generator) ReturnError(ctx *builder.MethodContext, errPath builder.Erro
 	}
 	returns = append(returns, g.wrap(ctx, errPath, id))
 	return jen.Return(returns...), true
+}
+
+// markCallersDirty marks the generated methods that may call the method id, which just gained an error
+// result or a context argument: the methods it was created for (its origin path) and, because of recursive types, the methods
+// that were created while building it. They have to be built again to handle the error and pass the context.
+func (g *generator) markCallersDirty(id method.IndexID, m *generatedMethod) {
+	for _, origin := range m.OriginPath {
+		g.lookup.ByID(origin).Dirty = true
+	}
+	for _, genMethod := range g.lookup.GetAll() {
+		if genMethod.Explicit {
+			continue
+		}
+		for _, origin := range genMethod.OriginPath {
+			if origin == id {
+				genMethod.Dirty = true
+				break
+			}
+		}
+	}
 }
 
 func (g *generator) requireContext(ctx *builder.MethodContext, need *xtype.Type) bool {
@@ -372,6 +400,7 @@ func (g *generator) requireContext(ctx *builder.MethodContext, need *xtype.Type)
 			Type: need,
 		})
 		check.Dirty = true
+		g.markCallersDirty(path, check)
 	}
 	return true
 }
@@ -538,7 +567,8 @@ func (g *generator) createSubMethod(ctx *builder.MethodContext, sourceID *xtype.
 
 	path := append([]method.IndexID{ctx.IndexID}, orig.OriginPath...)
 	genMethod := &generatedMethod{
-		OriginPath: path,
+		OriginPath:       path,
+		AvailableContext: ctx.AvailableContext,
 		Method: &config.Method{
 			Common:      g.conf.Common,
 			Fields:      map[string]*config.FieldMapping{},
